@@ -62,7 +62,7 @@ PROPS["C03"] = {
 }
 PROPS["C04"] = {
     "level": "proof", "harness": "C04", "driver": "C04",
-    "rule": ("cases = names at the edges (dot-prefixed first components beside undotted siblings, names sorting before .PKGINFO, 10-level nesting), control members whose size is 511/512/513/1024/4096 bytes, "
+    "rule": ("cases = names at the edges (dot-prefixed first components beside undotted siblings, names sorting before .PKGINFO, 10-level nesting, names beyond the ustar limits, non-ASCII names, entries at the root), control members whose size is 511/512/513/1024/4096 bytes, rpm payload archives (<= 64 KiB) re-encoded by the cpio container model (driver_summary.cpio_archives_reencoded counts them), "
              "plus generated configurations with every compression setting, x 5 formats; each package is read end to end by the independent decoders; "
              "distinct = distinct YAML documents; non-trivial = at least two content entries"),
     "trusted_base": PKG_TB, "assumptions": [],
